@@ -817,6 +817,60 @@ GEN_PROGS = [
 SOURCE_SIGS = {"corpus_m16_shxl": "m16-shxl-uninitialised-extension-words"}
 
 
+def gen_path_programs(rng, wd, n):
+    """Sources whose statements make library calls FAIL on the way to success - files that are found only through the `-i` search
+    path (the probe beside the source fails first), in front of lines that a report option copies in a way of its own (labelled
+    macro calls with / without INTLABEL, -P's muted copy; labels alone; calls without label): what a report option does with the
+    process state such a failed call leaves behind (errno) must not decide about the code file.  The library holds macro
+    definitions, symbols or raw bytes; every shape is drawn at random."""
+    out = []
+    for k in range(n):
+        d = os.path.join(wd, "gpath%d" % k)
+        lib = os.path.join(wd, "gpathlib%d" % k)
+        os.makedirs(d, exist_ok=True)
+        os.makedirs(lib, exist_ok=True)
+        cpu, org, db, nop = rng.choice([("z80", "100h", "db", "nop"), ("6502", "$200", "byt", "nop"), ("8051", "0", "db", "nop"), ("68000", "$1000", "dc.b", "nop")])
+        macs = []
+        for m in range(rng.randrange(1, 4)):
+            intl = rng.random() < 0.3
+            macs.append(("mc%d" % m, intl))
+        libsrc = []
+        for name, intl in macs:
+            libsrc.append("%s\tmacro %sx\n%s\t%s x,x+1\n\tendm\n" % (name, "{INTLABEL}," if intl else "", "__LABEL__:" if intl else "", db))
+        if rng.random() < 0.3:
+            libsrc.append("libconst\tequ %d\n" % rng.randrange(1, 200))
+        open(os.path.join(lib, "maclib%d.inc" % k), "w").write("".join(libsrc))
+        open(os.path.join(lib, "raw%d.bin" % k), "wb").write(bytes(rng.randrange(256) for _ in range(rng.randrange(1, 40))))
+        L = ["\tcpu %s\n\torg %s\n" % (cpu, org)]
+        if rng.random() < 0.5:
+            L.append("first:\t%s\n" % nop)
+        L.append("\tinclude \"maclib%d.inc\"\n" % k)
+        lab = 0
+        for i in range(rng.randrange(2, 9)):
+            r = rng.random() * (0.6 if i == 0 else 1.0)      # the line right behind the INCLUDE is mostly a call
+            name, intl = rng.choice(macs)
+            lab += 1
+            if r < 0.45:
+                L.append("lp%d:\t%s %d\n" % (lab, name, rng.randrange(0, 250)))          # label + call on one line
+            elif r < 0.55 and not intl:
+                L.append("lp%d:\n\t%s %d\n" % (lab, name, rng.randrange(0, 250)))
+            elif r < 0.7 and not intl:
+                L.append("\t%s %d\n" % (name, rng.randrange(0, 250)))
+            elif r < 0.7:
+                L.append("lp%d:\t%s %d\n" % (lab, name, rng.randrange(0, 250)))
+            elif r < 0.85:
+                L.append("\tbinclude \"raw%d.bin\"\n" % k)
+            elif r < 0.93:
+                L.append("; note %d\n" % i)
+            else:
+                L.append("lp%d:\t%s\n" % (lab, nop))
+        L.append("\t%s 255\n" % db)
+        a = os.path.join(d, "gpath%d.asm" % k)
+        open(a, "w").write("".join(L))
+        out.append(("gpath%d" % k, a, ["-i", lib]))
+    return out
+
+
 def run(args):
     res = common.Result("C17", args.tier, args.seed, "proof")
     # ReportFlow: the information-flow inventory of the report options, regenerated from the clang AST of every translation
@@ -952,6 +1006,9 @@ def run(args):
             p = os.path.join(gdir, name + ".asm")
             open(p, "w").write(src)
             gens.append((name, p, []))
+        for g in gen_path_programs(rng, wd, {"quick": 4, "thorough": 24}[args.tier]):
+            gens.append(g)
+            bump("diff:path_programs")
         cdir = os.path.join(common.VERIF, "corpus", "C17")
         if os.path.isdir(cdir):
             for f in sorted(os.listdir(cdir)):
